@@ -6,4 +6,4 @@ CONSTANTS
 SPECIFICATION TraceSpec
 CHECK_DEADLOCK FALSE
 POSTCONDITION TraceAccepted
-INVARIANTS TypeOK AtMostOnce BarrierOK Terminated
+INVARIANTS TypeOK AtMostOnce BarrierOK Terminated WaitersPollQueuedWork
